@@ -518,6 +518,13 @@ def pathline_specs(rng, tier):
             p[h], p[v], p[o] = rng.uniform(0.05, 1.9), rng.uniform(-1.9, -0.05), rng.uniform(-0.9, 0.9)
         ms = float(rng.choice([0.25, 0.5, 1.0, 2.0, 5.0]))
         steps = None if k % 4 else int(rng.choice([1, 2, 10, 50]))
+        if tier != "quick" and k % 5 == 4:
+            # thorough tier: every fifth end point is moved ONTO the boundary of the box -- one, two or three coordinates
+            # snapped to a face (a face, an edge, a corner), lower or upper side at random
+            for ax in rng.permutation(3)[:int(rng.integers(1, 4))]:
+                p[ax] = mn[ax] if rng.random() < 0.5 else mx[ax]
+            if flow == 2 and abs(p[h]) < 1e-9 and abs(p[v]) < 1e-9:
+                p[v] = mn[v]          # not the singular corner itself (outside the domain of the flow)
         specs.append((flow, LETTERS[h], LETTERS[v], ps, mn, mx, p, ms, steps))
     return specs
 
@@ -1696,7 +1703,7 @@ def run(chk):
             chk.cov["call_sequences"] = {"calls": 0, "error": str(e)[:300]}
         if seq_results is not None:
             seq_bad = compare_sessions(chk, scenarios, seq_results, stats, known_path_points)
-        chk.cov["traces_validated_against_impl"] = len(kc) + stats["pathlines"] + chk.cov["call_sequences"]["calls"]
+        chk.cov["traces_validated_against_impl"] = len(kc) + len(rep_cases) + stats["pathlines"] + chk.cov["call_sequences"]["calls"]
     stats["strain_ratios"] = sorted(stats["strain_ratios"])[-8:]
     sigs = stats.pop("known_signatures", {})
     stats["known_boundary_signatures"] = {k: len(v) for k, v in sigs.items()}
@@ -1794,8 +1801,10 @@ def replay(d):
         spec = decode_spec(inp)
         rec = run_pathline(spec)
         fails = check_pathline(chk_dummy, spec, rec, new_stats()) if os.path.exists(os.path.join(common.EXTRACT, GROUP, "driver")) else []
-        if rec["exc"] is not None:
+        if rec["exc"] is not None and not is_known_pathline_failure(spec, rec, fails):
             fails.append(f"get_pathline raised {rec['exc'][0]}: {rec['exc'][1]}")
+        elif rec["exc"] is not None:
+            print("(get_pathline raises the brentq ValueError of the known finding C18:get_pathline:...:ValueError for this input)")
     elif inp["call"].endswith("to_indices2d"):
         import pydrex.geometry as geo
         h, v = inp["horizontal"], inp["vertical"]
